@@ -39,6 +39,12 @@ pub enum AnySock {
     Sub(SubSocket),
     XPub(XPubSocket),
 }
+/// a future that is woken again and again is re-polled up to this many times before the driver calls it stalled (a 70 KB
+/// message written one byte at a time over a pipe that yields at every fifth write needs ~30 000 polls)
+pub const MAX_POLLS: usize = 3_000_000;
+/// times a future was still being woken when the cap was reached (reported as harness_error: either a livelock in the
+/// code under test or a cap that is too small; never silently taken for "pending")
+pub static POLL_CAP_HITS: std::sync::atomic::AtomicUsize = std::sync::atomic::AtomicUsize::new(0);
 pub type BoxFut<'a, T> = Pin<Box<dyn Future<Output = T> + Send + 'a>>;
 pub const ALL_TYPES: [&str; 9] = ["REQ", "REP", "DEALER", "ROUTER", "PUSH", "PULL", "PUB", "SUB", "XPUB"];
 pub const RECV_TYPES: [&str; 7] = ["REQ", "REP", "DEALER", "ROUTER", "PULL", "SUB", "XPUB"];
@@ -221,6 +227,9 @@ pub struct Env {
     pub partial_sends: BTreeMap<i64, (Vec<u8>, usize, Vec<String>)>,
     /// connection on which the library last wrote a complete application message
     pub last_wire_conn: Option<i64>,
+    /// scenario-level: pipes answer with hostile-but-legal readiness (self-waking Pending, late wake-ups of old wakers)
+    pub jitter: Option<u64>,
+    pub jitter_writes: bool,
 }
 
 pub enum Driven<T> {
@@ -255,7 +264,11 @@ pub async fn drive_catch<F: Future + ?Sized>(f: &mut Pin<Box<F>>, w: &Arc<CountW
             Ok(Poll::Pending) => {}
         }
         sim::settle().await;
-        if w.count() == before || *polls >= max_polls {
+        if w.count() == before {
+            return Driven::Stalled;
+        }
+        if *polls >= max_polls {
+            POLL_CAP_HITS.fetch_add(1, Ordering::SeqCst);
             return Driven::Stalled;
         }
     }
@@ -310,7 +323,7 @@ pub fn sanitize(v: &mut Value) {
 
 impl Env {
     pub fn new(backend: Arc<dyn MultiPeerBackend>) -> Env {
-        Env { backend, conns: BTreeMap::new(), attaching: BTreeMap::new(), out: vec![], waker: CountWaker::new(), seq: 0, partial_sends: BTreeMap::new(), last_wire_conn: None }
+        Env { backend, conns: BTreeMap::new(), attaching: BTreeMap::new(), out: vec![], waker: CountWaker::new(), seq: 0, partial_sends: BTreeMap::new(), last_wire_conn: None, jitter: None, jitter_writes: false }
     }
     pub fn ev(&mut self, mut v: Value) {
         sanitize(&mut v);
@@ -455,6 +468,11 @@ impl Env {
         match name {
             "attach" | "attach_raw" => {
                 let (to_lib, from_lib) = (H::new(), H::new());
+                if let Some(j) = self.jitter {
+                    let seed = j.wrapping_mul(1_000_003).wrapping_add(c as u64 * 7919);
+                    to_lib.set_jitter(seed, false);
+                    from_lib.set_jitter(seed ^ 0x9e37_79b9, self.jitter_writes);
+                }
                 for s in Self::hello(op) {
                     to_lib.push(&s);
                 }
@@ -664,9 +682,13 @@ pub async fn run_scenario(sc: &Value) -> Vec<Value> {
     let ident = sc.get("identity").and_then(|v| v.as_str()).map(rc::unhex);
     let mut sock = AnySock::new(&stype, ident);
     let mut env = Env::new(sock.backend());
+    env.jitter = sc.get("jitter").and_then(|v| v.as_u64());
+    // a PUB-type socket drops a message for a subscriber whose pipe is not writable at that instant: a write that
+    // answers Pending there is a (momentarily) slow subscriber by definition, so writes are not jittered for them
+    env.jitter_writes = !matches!(stype.as_str(), "PUB" | "XPUB");
     gate().set_hold(None);
     take_panics();
-    env.ev(json!({"ev":"reset","scen":sc.get("scen").cloned().unwrap_or(json!(0)),"sock":stype,"tag":sc.get("tag").cloned().unwrap_or(Value::Null)}));
+    env.ev(json!({"ev":"reset","scen":sc.get("scen").cloned().unwrap_or(json!(0)),"sock":stype,"tag":sc.get("tag").cloned().unwrap_or(Value::Null),"jitter":env.jitter}));
     let ops: Vec<Value> = sc["ops"].as_array().cloned().unwrap_or_default();
     let mut i = 0usize;
     let mut dropped: Option<Value> = None;
@@ -754,7 +776,7 @@ pub async fn run_scenario(sc: &Value) -> Vec<Value> {
                             }
                         }
                     } else {
-                        match drive_catch(f, &w, 10_000, &mut polls).await {
+                        match drive_catch(f, &w, MAX_POLLS, &mut polls).await {
                             Driven::Done(x) => Driven::Done(x.map(Some)),
                             Driven::Stalled => Driven::Stalled,
                             Driven::Panicked(m) => Driven::Panicked(m),
@@ -773,7 +795,7 @@ pub async fn run_scenario(sc: &Value) -> Vec<Value> {
                             }
                         }
                     } else {
-                        match drive_catch(f, &w, 10_000, &mut polls).await {
+                        match drive_catch(f, &w, MAX_POLLS, &mut polls).await {
                             Driven::Done(x) => Driven::Done(x.map(|_| None)),
                             Driven::Stalled => Driven::Stalled,
                             Driven::Panicked(m) => Driven::Panicked(m),
@@ -860,6 +882,13 @@ pub async fn run_scenario(sc: &Value) -> Vec<Value> {
                         let parts = env.partials();
                         env.ev(json!({"ev":"quiescent","pending":what,"woken_since_poll":false,"partials":parts}));
                     }
+                    "send" | "send_to" | "sub" | "unsub" if what == "recv" => {
+                        // the application can only make another call after abandoning the pending recv
+                        env.ev(json!({"ev":"recv_dropped","polls":polls,"implicit":true}));
+                        i -= 1;
+                        done = true;
+                        break;
+                    }
                     _ => {
                         if !env.env_op(op2).await {
                             env.ev(json!({"ev":"harness_error","what":format!("op {} while {} pending", n2, what)}));
@@ -890,7 +919,7 @@ pub async fn run_scenario(sc: &Value) -> Vec<Value> {
             let mut f: BoxFut<'static, usize> = Box::pin(sock.close());
             let w = CountWaker::new();
             let mut polls = 0;
-            match drive_catch(&mut f, &w, 10_000, &mut polls).await {
+            match drive_catch(&mut f, &w, MAX_POLLS, &mut polls).await {
                 Driven::Done(n) => env.ev(json!({"ev":"close_ret","res":"ok","errors":n})),
                 Driven::Stalled => env.ev(json!({"ev":"close_ret","res":"pending"})),
                 Driven::Panicked(m) => {
@@ -934,6 +963,9 @@ pub async fn run_scenario(sc: &Value) -> Vec<Value> {
     drop(sock);
     sim::settle().await;
     env.scan();
+    if POLL_CAP_HITS.swap(0, Ordering::SeqCst) > 0 {
+        env.ev(json!({"ev":"harness_error","what":"a future was still being woken after MAX_POLLS polls"}));
+    }
     env.ev(json!({"ev":"end"}));
     std::mem::take(&mut env.out)
 }
@@ -976,9 +1008,10 @@ pub async fn run_proxy_scenario(sc: &Value) -> Vec<Value> {
     let fb = front.backend();
     let bb = back.backend();
     let mut env = Env::new(fb.clone());
+    env.jitter = sc.get("jitter").and_then(|v| v.as_u64());
     gate().set_hold(None);
     take_panics();
-    env.ev(json!({"ev":"reset","scen":sc.get("scen").cloned().unwrap_or(json!(0)),"sock":"PROXY","capture":cap_kind}));
+    env.ev(json!({"ev":"reset","scen":sc.get("scen").cloned().unwrap_or(json!(0)),"sock":"PROXY","capture":cap_kind,"jitter":env.jitter}));
     let ops: Vec<Value> = sc["ops"].as_array().cloned().unwrap_or_default();
     // attach phase ops may appear anywhere; the proxy future is created up front
     let mut fut: Pin<Box<dyn Future<Output = ZmqResult<()>>>> = Box::pin(zeromq::proxy(front, back, cap));
@@ -999,6 +1032,7 @@ pub async fn run_proxy_scenario(sc: &Value) -> Vec<Value> {
                     },
                     _ => fb.clone(),
                 };
+                env.jitter_writes = !(side == "cap" && cap_kind == "PUB");
                 let c = op.get("c").and_then(|v| v.as_i64()).unwrap_or(0);
                 env.ev(json!({"ev":"side","c":c,"side":side}));
                 env.env_op(op).await;
@@ -1024,7 +1058,7 @@ pub async fn run_proxy_scenario(sc: &Value) -> Vec<Value> {
                         }
                     }
                 } else {
-                    let r = drive_catch(&mut fut, &w, 10_000, &mut polls).await;
+                    let r = drive_catch(&mut fut, &w, MAX_POLLS, &mut polls).await;
                     seen_wakes = w.count();
                     r
                 };
@@ -1046,7 +1080,7 @@ pub async fn run_proxy_scenario(sc: &Value) -> Vec<Value> {
             "quiescent" => {
                 sim::settle().await;
                 if !finished && (seen_wakes == usize::MAX || w.count() > seen_wakes) {
-                    let r = drive_catch(&mut fut, &w, 10_000, &mut polls).await;
+                    let r = drive_catch(&mut fut, &w, MAX_POLLS, &mut polls).await;
                     seen_wakes = w.count();
                     if let Driven::Done(x) = r {
                         finished = true;
@@ -1070,6 +1104,9 @@ pub async fn run_proxy_scenario(sc: &Value) -> Vec<Value> {
     drop(fut);
     sim::settle().await;
     env.scan();
+    if POLL_CAP_HITS.swap(0, Ordering::SeqCst) > 0 {
+        env.ev(json!({"ev":"harness_error","what":"a future was still being woken after MAX_POLLS polls"}));
+    }
     env.ev(json!({"ev":"end"}));
     std::mem::take(&mut env.out)
 }
